@@ -122,6 +122,19 @@ Proof.
   induction l as [|c r IH]; intros st H; simpl; [exact H|]. apply IH, sc_detach, H.
 Qed.
 
+Lemma sc_after_detach k b st : SC st -> SC (after_detach k b st).
+Proof.
+  intros H. unfold after_detach. destruct (kf_detachreset k); [exact H|].
+  destruct (b && has_data_tag (tags st)); [|exact H]. unfold SC, reopen_data. simpl.
+  apply sct_inherit, sct_data_tags. exact H.
+Qed.
+
+Lemma sc_tag_again k p st : SC st -> SC (tag_again k p st).
+Proof.
+  intros H. unfold tag_again. destruct (kf_detachreset k); [exact H|].
+  apply (sc_eq st); [apply tags_start_tagging|exact H].
+Qed.
+
 Lemma complex_with_def_id d i : complex (with_def_id d i) = complex d.
 Proof. reflexivity. Qed.
 
@@ -150,8 +163,8 @@ Proof.
       apply sc_set_tags, sct_tset; [intros E; exfalso; apply E; reflexivity|exact H].
   - (* ADelTag *) simpl. destruct (tget n (tags st)) as [t|]; [|exact H].
     destruct (referenced n (tags st)); [exact H|].
-    apply sc_set_tags. unfold tdel. apply sct_tset; [intros E; exfalso; apply E; reflexivity|].
-    apply sc_fold_detach'. exact H.
+    apply sc_tag_again, sc_set_tags. unfold tdel. apply sct_tset; [intros E; exfalso; apply E; reflexivity|].
+    apply sc_after_detach, sc_fold_detach'. exact H.
   - (* AQuery *) simpl. destruct (tget n (tags st)) as [t|] eqn:G; [|exact H].
     destruct (complex d) eqn:Cx; simpl.
     + destruct (t_conv t) eqn:Ct; simpl; [|exact H].
@@ -178,9 +191,8 @@ Proof.
     apply sct_tset; [|exact H1]. exact (sct_get _ _ _ H1 G1).
   - (* ASetConv *) simpl. destruct (tget n (tags st)) as [t|]; [|exact H].
     match goal with |- SC (if ?b then _ else _) => destruct b end; [|exact H].
-    apply (sc_eq (fst (attach_all (fold_left (fun s c => if memN c cs then s else detach s n c) (t_conv t) st) n cs)));
-      [apply tags_start_converter|].
-    apply sc_attach_all, sc_fold_detach, H.
+    match goal with |- SC (start_converter ?s) => apply (sc_eq s); [apply tags_start_converter|] end.
+    apply sc_tag_again, sc_attach_all, sc_after_detach, sc_fold_detach, H.
   - (* ABodyImport *) simpl. destruct (jimp st) as [j|]; [|exact H]. destruct (ij_resp j); exact H.
   - (* ABodyTag *) simpl. destruct (jtag st) as [j|]; [|exact H]. destruct (tj_res j); exact H.
   - (* ABodyConvert *) simpl. destruct (jconv st) as [j|]; [|exact H]. destruct (cj_done j); exact H.
